@@ -90,14 +90,15 @@ func c11BuildPlan(variant int) (*c11Plan, error) {
 	}
 	forkHeads := s.n.Heads
 	// main branch A: two zone blocks
-	a1, err := mine("a1", 2, 4) // G: spend a branch-created output
-	if err != nil {
+	aOps := c11AOps[(variant/2)%len(c11AOps)]
+	a1, err := mine("a1", 2, aOps[0]...)
+	if err != nil && (variant/2)%len(c11AOps) == 0 {
 		a1, err = mine("a1", 2, 5)
-		if err != nil {
-			return nil, err
-		}
 	}
-	a2, err := mine("a2", 2, 5)
+	if err != nil {
+		return nil, err
+	}
+	a2, err := mine("a2", 2, aOps[1]...)
 	if err != nil {
 		return nil, err
 	}
@@ -110,7 +111,7 @@ func c11BuildPlan(variant int) (*c11Plan, error) {
 	defer sb.close()
 	_ = forkHeads
 	var bside []*types.WorkObject
-	for i, ops := range [][]int{{2}, {5}, {}} { // S6b, T, empty
+	for i, ops := range c11BOps[(variant/2/len(c11AOps))%len(c11BOps)] {
 		for _, op := range ops {
 			c10ApplyOp(sb, op)
 		}
@@ -124,6 +125,22 @@ func c11BuildPlan(variant int) (*c11Plan, error) {
 	pl.steps = append(pl.steps, c11Step{"sethead", bside[len(bside)-1], "reorg:sethead(side tip)"})
 	return pl, nil
 }
+
+// history variants: variant = base + 2*(a + 3*b); base 1 adds a region-order and a prime-order block
+// before the fork point, a selects the contents of the two main-branch blocks, b the side branch
+// (its length is the reorganisation's roll-forward depth). Variants 0 and 1 are the original plans.
+var c11AOps = [][2][]int{
+	{{4}, {5}},    // G (spend a branch-created output) ; T
+	{{3}, {4, 5}}, // S3 (two outputs) ; G + T
+	{{}, {1}},     // empty ; S6a
+}
+var c11BOps = [][][]int{
+	{{2}, {5}, {}}, // S6b, T, empty: longer side branch
+	{{3, 5}, {4}},  // S3 + T, G: same length
+	{{5}},          // T: shorter side branch (forced head switch to a lighter chain tip)
+}
+
+const c11Variants = 18
 
 func c11Blocks(steps []c11Step) []*types.WorkObject {
 	var out []*types.WorkObject
@@ -331,7 +348,10 @@ func runC11(c *vx.Ctx) {
 	p := c.Part("crash-prefixes")
 	variants := []int{1}
 	if c.Thorough() {
-		variants = []int{0, 1}
+		variants = nil
+		for v := 0; v < c11Variants; v++ {
+			variants = append(variants, v)
+		}
 	}
 	for _, v := range variants {
 		pl, err := c11BuildPlan(v)
